@@ -3,6 +3,7 @@ package props
 import (
 	"fmt"
 	"go/token"
+	"go/types"
 	"sort"
 	"strings"
 
@@ -78,8 +79,12 @@ func condShape(e edgeCond) string {
 	if !ok {
 		return "cond"
 	}
+	isLen := func(v ssa.Value) bool {
+		call, ok := v.(*ssa.Call)
+		return ok && core.CalleeName(call) == "builtin:len"
+	}
 	side := func(v ssa.Value) string {
-		if call, ok := v.(*ssa.Call); ok && core.CalleeName(call) == "builtin:len" {
+		if isLen(v) {
 			return "len"
 		}
 		if cst, ok := v.(*ssa.Const); ok {
@@ -89,10 +94,23 @@ func condShape(e edgeCond) string {
 			return cst.Value.ExactString()
 		}
 		if f, ok := core.LoadedField(v); ok {
+			// role label: the handler's raw default bytes, whatever the field is called
+			if sl, isSl := v.Type().Underlying().(*types.Slice); isSl {
+				if b, isB := sl.Elem().Underlying().(*types.Basic); isB && b.Kind() == types.Uint8 {
+					return "default"
+				}
+			}
 			return f.Name
 		}
 		if g, ok := loadedGlobal(v); ok {
 			return g
+		}
+		if ex, ok := v.(*ssa.Extract); ok {
+			if c, ok := ex.Tuple.(*ssa.Call); ok {
+				if cal := c.Common().StaticCallee(); cal != nil && strings.HasSuffix(cal.String(), "badger.Txn).Get") {
+					return "Txn.Get"
+				}
+			}
 		}
 		d := valDesc(v)
 		if i := strings.LastIndex(d, ":"); i >= 0 {
@@ -100,11 +118,26 @@ func condShape(e edgeCond) string {
 		}
 		return d
 	}
-	op := bo.Op.String()
+	x, y := bo.X, bo.Y
+	opTok := bo.Op
+	if isLen(y) && !isLen(x) { // canonical: len on the left
+		x, y = y, x
+		switch opTok {
+		case token.LSS:
+			opTok = token.GTR
+		case token.GTR:
+			opTok = token.LSS
+		case token.LEQ:
+			opTok = token.GEQ
+		case token.GEQ:
+			opTok = token.LEQ
+		}
+	}
+	op := opTok.String()
 	if !truth {
 		op = map[string]string{"==": "!=", "!=": "==", "<": ">=", ">=": "<", ">": "<=", "<=": ">"}[op]
 	}
-	return side(bo.X) + op + side(bo.Y)
+	return side(x) + op + side(y)
 }
 
 func c20(r *core.Run) {
@@ -120,9 +153,9 @@ func c20(r *core.Run) {
 
 	want := map[string][]string{
 		"applyAdd":    {"errIndexOutOfRange@len<idx"},
-		"applyRemove": {"ErrNotFound@rawDefault==nil", "errIndexOutOfRange@len<=idx"},
-		"applyCreate": {"errResourceAlreadyExists@(*github.com/dgraph-io/badger.Txn).Get==nil", "errResourceAlreadyExists@rawDefault!=nil"},
-		"applyChange": {"ErrNotFound@rawDefault==nil"},
+		"applyRemove": {"ErrNotFound@default==nil", "errIndexOutOfRange@len<=idx"},
+		"applyCreate": {"errResourceAlreadyExists@Txn.Get==nil", "errResourceAlreadyExists@default!=nil"},
+		"applyChange": {"ErrNotFound@default==nil"},
 	}
 	sigs := map[string]map[string][]string{}
 	for _, mp := range mwPkgs {
@@ -150,15 +183,27 @@ func c20(r *core.Run) {
 			}
 			// read-modify-write on the same key inside the closure
 			var get, wr ssa.CallInstruction
+			mayGet := mayExec(p.FuncsOfPkg(mp.rel), func(in ssa.Instruction) bool {
+				c, ok := in.(ssa.CallInstruction)
+				return ok && isBadgerCall(c, "Txn", "Get")
+			})
 			for _, c := range core.Calls(cl) {
-				if isBadgerCall(c, "Txn", "Get") && get == nil {
+				if get == nil && (isBadgerCall(c, "Txn", "Get") || (c.Common().StaticCallee() != nil && mayGet[c.Common().StaticCallee()] && len(c.Common().Args) > 0)) {
 					get = c
 				}
 				if isTxnWrite(c) {
 					wr = c
 				}
 			}
-			r.Check(get != nil && wr != nil && core.Dominates(get, wr) && get.Common().Args[0] == wr.Common().Args[0], "T1", core.FuncName(cl), "read-before-write-on-same-txn", posOf(p, wr), "the stored value is read and rewritten on the closure's own transaction", "the write is not preceded by a read of the resource on the same transaction")
+			sameTxn := false
+			if get != nil && wr != nil {
+				for _, a := range get.Common().Args {
+					if a == wr.Common().Args[0] {
+						sameTxn = true
+					}
+				}
+			}
+			r.Check(get != nil && wr != nil && core.Dominates(get, wr) && sameTxn, "T1", core.FuncName(cl), "read-before-write-on-same-txn", posOf(p, wr), "the stored value is read and rewritten on the closure's own transaction", "the write is not preceded by a read of the resource on the same transaction")
 			sig := guardSignature(cl)
 			sigs[mp.rel][name] = sig
 			for _, w := range want[name] {
@@ -193,16 +238,13 @@ func c20(r *core.Run) {
 	// ---- D1 --------------------------------------------------------------
 	for _, mp := range mwPkgs {
 		if m := methodNamed(p, mp.rel, mp.typ, "applyChange"); m != nil {
-			for _, cl := range m.AnonFuncs {
+			// the function (closure or private helper) that looks properties up in the stored model
+			for _, cl := range p.Scope(m) {
 				var lookups []*ssa.Lookup
 				for _, b := range cl.Blocks {
 					for _, in := range b.Instrs {
-						if lk, ok := in.(*ssa.Lookup); ok {
-							if _, isMap := lk.X.Type().Underlying().(interface{ Key() interface{} }); isMap || true {
-								if strings.HasPrefix(lk.X.Type().String(), "map[string]interface") {
-									lookups = append(lookups, lk)
-								}
-							}
+						if lk, ok := in.(*ssa.Lookup); ok && strings.HasPrefix(lk.X.Type().String(), "map[string]interface") {
+							lookups = append(lookups, lk)
 						}
 					}
 				}
@@ -216,22 +258,23 @@ func c20(r *core.Run) {
 					}
 				}
 				r.Check(okPresence, "D1", core.FuncName(cl), "presence-decided-by-comma-ok-lookup", p.InstrPos(lookups[0]), "a stored property (even null) is distinguished from an absent one by the map's presence flag", "the change handler looks the property up without the presence flag: a property stored as null is treated as absent (delete skipped in storage, wrong old values)")
-				// rev entries
+				// revert entries: updates of a map[string]interface{} other than the model being looked up
 				good := true
 				why := ""
 				nRev := 0
 				for _, b := range cl.Blocks {
 					for _, in := range b.Instrs {
 						mu, ok := in.(*ssa.MapUpdate)
-						if !ok {
+						if !ok || !strings.HasPrefix(mu.Map.Type().String(), "map[string]interface") {
 							continue
 						}
-						// rev is the captured cell named rev
-						if u, ok := mu.Map.(*ssa.UnOp); ok {
-							if fv, ok := u.X.(*ssa.FreeVar); !ok || fv.Name() != "rev" {
-								continue
+						isModel := false
+						for _, lk := range lookups {
+							if sameRoot(mu.Map, lk.X) {
+								isModel = true
 							}
-						} else {
+						}
+						if isModel {
 							continue
 						}
 						nRev++
@@ -257,7 +300,8 @@ func c20(r *core.Run) {
 							// must be on the not-present edge
 							np := false
 							for _, ed := range dominatingEdges(mu) {
-								if ex, ok := ed.If.Cond.(*ssa.Extract); ok && ex.Index == 1 && ed.Succ == 1 {
+								cnd, succ := ed.Norm()
+								if ex, ok := cnd.(*ssa.Extract); ok && ex.Index == 1 && succ == 1 {
 									if _, ok := ex.Tuple.(*ssa.Lookup); ok {
 										np = true
 									}
@@ -298,8 +342,8 @@ func c20(r *core.Run) {
 									if fv, ok := st.Addr.(*ssa.FreeVar); ok {
 										cell := core.BindingOf(fv)
 										for _, c := range core.Calls(m) {
-											if cal := c.Common().StaticCallee(); cal != nil && cal.String() == "encoding/json.Unmarshal" {
-												if u, ok := c.Common().Args[0].(*ssa.UnOp); ok && u.X == cell {
+											for i, a := range c.Common().Args {
+												if u, ok := a.(*ssa.UnOp); ok && u.X == cell && argReachesUnmarshal(c, i, 0) {
 													cellOK = true
 												}
 											}
@@ -329,4 +373,38 @@ func condShapeOfReturn(ret *ssa.Return) string {
 		}
 	}
 	return g + "@" + condShape(best)
+}
+
+// sameRoot: a and b are the same value or loads of the same variable cell.
+func sameRoot(a, b ssa.Value) bool {
+	if a == b {
+		return true
+	}
+	ua, ok1 := a.(*ssa.UnOp)
+	ub, ok2 := b.(*ssa.UnOp)
+	return ok1 && ok2 && ua.Op == token.MUL && ub.Op == token.MUL && ua.X == ub.X
+}
+
+// argReachesUnmarshal: the i-th argument of call c is the data argument of
+// json.Unmarshal, directly or through module helpers that pass it on unchanged.
+func argReachesUnmarshal(c ssa.CallInstruction, i, depth int) bool {
+	cal := c.Common().StaticCallee()
+	if cal == nil || depth > 3 {
+		return false
+	}
+	if cal.String() == "encoding/json.Unmarshal" {
+		return i == 0
+	}
+	if len(cal.Blocks) == 0 || i >= len(cal.Params) {
+		return false
+	}
+	prm := cal.Params[i]
+	for _, c2 := range core.Calls(cal) {
+		for j, a := range c2.Common().Args {
+			if core.Strip(a) == ssa.Value(prm) && argReachesUnmarshal(c2, j, depth+1) {
+				return true
+			}
+		}
+	}
+	return false
 }
